@@ -5,6 +5,8 @@ use log::{debug, error};
 use mini_moka::sync::Cache;
 use once_cell::sync::OnceCell;
 use regex::{Regex, RegexSet};
+#[cfg(pgcat_verif)]
+use simcore::rand_shim as rand;
 use sqlparser::ast::Statement::{Delete, Insert, Query, StartTransaction, Update};
 use sqlparser::ast::{
     Assignment, BinaryOperator, Expr, Ident, JoinConstraint, JoinOperator, SetExpr, Statement,
